@@ -62,7 +62,11 @@ def case_st(draw):
                 if draw(st.integers(0, 11)) == 0:
                     msgs.append(rm.tag(draw(st.sampled_from([b'', '', b'\x00']))))   # untagged
                 else:
-                    msgs.append(rm.tag(tagged(k[0], seq, p)))
+                    m = rm.tag(tagged(k[0], seq, p))
+                    if m['t'] == 'json' and draw(st.integers(0, 4)) == 0:
+                        # the same value as an instance of a dict / list subclass
+                        m = {'t': 'odict' if m['v'].startswith('{') else 'ulist', 'v': m['v']}
+                    msgs.append(m)
             steps.append({'do': k, 'msgs': msgs, 'settle': draw(st.sampled_from([True, True, False]))})
         elif k == 'idle':
             steps.append({'do': 'idle', 'cycles': draw(st.sampled_from([1, 2, 10, 20, 50]))})
